@@ -378,6 +378,13 @@ def run(ctx):
                 init_ok = init.get("k") == "decl" and any(v.get("decl") == ivar and const_value(v.get("init")) == 0 for v in init.get("vars", []))
                 body_writes = any(lvalue_root(y.get("l") or y.get("e") or {}) == ivar for y in walk(lp.get("body") or {})
                                   if y.get("k") in ("assign", "cassign") or (y.get("k") == "un" and y.get("op") in ("pre++", "post++", "pre--", "post--")))
+                # decided only for the forms that can be read: an upward loop (`<` / `!=` bound) whose step goes the other way or is wider than 1,
+                # or that starts behind index 0; a loop of another shape (counting down from the length, iterators) is not judged here
+                down = (inc.get("k") == "un" and inc.get("op") in ("pre--", "post--")) or (inc.get("k") == "cassign" and inc.get("op") == "-")
+                wide = inc.get("k") == "cassign" and inc.get("op") == "+" and (const_value(inc.get("r")) or 1) > 1
+                late = init.get("k") == "decl" and any(v.get("decl") == ivar and (const_value(v.get("init")) or 0) > 0 for v in init.get("vars", []))
+                if ivar is None or not (step_ok and init_ok and not body_writes or down or wide or late):
+                    continue
                 res.check(ivar is not None and step_ok and init_ok and not body_writes, "C14-R3", "operator==(%s):every-byte" % cls, lp.get("loc") or g3.loc,
                           "the byte loop visits every index 0 .. length-1",
                           "the byte loop of operator==(%s) does not visit every index from 0 to length-1 (`%s`; `%s`): payloads that differ in a byte it skips "
